@@ -163,3 +163,15 @@ Example C04_nonvacuous :
   interp 40 [h] (VList [base; VStr "${h}"; base]) st0 = interp 40 [h] (VList [base; inline; base]) st0 /\
   exists r s, interp 40 [h] (VList [base; VStr "${h}"; base]) st0 = Ok (r, s).
 Proof. cbn zeta. split; [vm_compute; reflexivity | eexists; eexists; vm_compute; reflexivity]. Qed.
+
+(** A referenced mapping may refer to one of its own members by its full path: looking the member up
+    while the mapping itself is being resolved is no loop, and the layer merges like the inline value. *)
+Example C04_self_referring_target_nonvacuous :
+  let src := mk_entry (VStr "src") (VMap [mk_entry (VStr "items") (VSeq [VStr "b"]) false false;
+                                           mk_entry (VStr "extra") (VStr "${src:items}") false false]) false false in
+  let l1 := VMap [mk_entry (VStr "extra") (VSeq [VStr "a"]) false false] in
+  let l3 := VMap [mk_entry (VStr "extra") (VSeq [VStr "c"]) false false] in
+  exists s, interp 60 [src] (VList [l1; VStr "${src}"; l3]) st0 =
+            Ok (VMap [mk_entry (VStr "extra") (VSeq [VLit "a"; VLit "b"; VLit "c"]) false false;
+                      mk_entry (VStr "items") (VSeq [VLit "b"]) false false], s).
+Proof. cbn zeta. eexists. vm_compute. reflexivity. Qed.
